@@ -45,8 +45,24 @@ def main(tier: str) -> int:
         integ, name, c, at, n = job
         return job, producer.simulate(c, num=n, seed=seed + 16 + at, hist_len=max(30, at + 12))
 
-    with ThreadPoolExecutor(10) as ex:
+    from .. import readergraph as rg  # noqa: PLC0415
+
+    graph_unis = ["graphs-datatype", "triples-names"] + (["quads-prefix"] if tier == "thorough" else [])
+    with ThreadPoolExecutor(12) as ex:
+        graphs_f = [ex.submit(rg.explore, u) for u in graph_unis]
         sims = list(ex.map(sim, jobs))
+        graphs = [f.result() for f in graphs_f]
+    # (i) every reachable reader state x every catalogued illegal next row, on a real Decoder
+    graph_stats = {}
+    graph_faults = 0
+    for u, (edges, faults_at, gr) in zip(graph_unis, graphs):
+        st = rg.walk(u, edges, faults_at,
+                     on_violation=lambda clause, what, rp, u=u: (run.violation({"clause": clause, "binding": "reader-state-graph", "universe": u,
+                                                                                "class": rp.get("class", "")}, what, rp)
+                                                                 if clause == "invalid-row-accepted" else None),
+                     on_drift=lambda w: None)
+        graph_stats[u] = dict(st, tlc_states=gr.distinct)
+        graph_faults += st["fault_rows_replayed"]
     taken: dict = {}
     evaluations = 0
     distinct = set()
@@ -96,8 +112,9 @@ def main(tier: str) -> int:
     if missing:
         env.machinery_failure(f"C16: fault classes never injected: {missing}")
     return run.finish({
-        "evaluations": evaluations, "distinct_nontrivial": len(distinct),
-        "rule": "JellyProducer.Violate injects one catalogued violation (12 classes) after FaultAt rows of an otherwise arbitrary legal stream, and only rows "
+        "evaluations": evaluations + graph_faults, "distinct_nontrivial": len(distinct) + graph_faults, "reader_state_graph": graph_stats,
+        "rule": "(i) TLC closes JellyProducer in tiny universes and prints, for every reachable reader state, every catalogued illegal next row (confirmed invalid by the TLA+ reader); "
+                "each is applied to a real Decoder brought into that state: it must raise. (ii) JellyProducer.Violate injects one catalogued violation (12 classes) after FaultAt rows of an otherwise arbitrary legal stream, and only rows "
                 "the Tier-1 reader rejects AT THAT ROW qualify (confirmed invalid by the reference decoder); bytes by /verif's codec; parse_jelly_flat of both "
                 "integrations drained item by item: an exception must be raised and everything yielded before must be the denotation of the earlier rows. "
                 "distinct = (integration, physical type, class, position, offending row)",
